@@ -226,6 +226,7 @@ also("C03", "(R-SIBLING-AGREE) for every answer findNext/findPrev can give (node
 also("C04", "(R-OK-FORWARD) a (value, ok) accessor never answers a constant ok that contradicts the ok of the lookup known on that path; (R-ITER-SIBLING) omap's First and Last initialise the same fields of the iterator they return.")
 also("C07", "Index helper methods (wrap, prev, tail) are analysed at their call sites; a value found equal to a constant yields a congruence the slot rules use.")
 also("C08", "A helper that does the accounting of a departure (one callback, one size subtraction, one count decrement on its parameters) is summarised and held to the departing pair at every call site; the size stored with an arrival is bounded by limit by linear facts over size and limit (loop exits, helper postconditions) with no write of size in between.")
+also("C09", "(R-CALLBACK-ONCE) the clause 'every entry that leaves the cache is reported to the eviction callback exactly once' is decided by importing C08's pairing rule R-EVICT-PAIR (departure, callback and accounting lie in one critical section).")
 also("C09", "A call made before the critical section is tolerated only when its callee writes nothing and its result is used for nothing but the capacity of a fresh slice.")
 also("C11", "Spans are followed through windows that the builder advances by re-slicing (lhs = lhs[n:]); every slice expression on the way to the parameter is held to R-EDIT-SPAN.")
 also("C15", "The library's whole-string tests on the input (strings.ContainsAny(s, const), IndexByte(s, c) >= 0, …) are summarised as 'some byte lies in a fixed set' and take part in R-QUOTABLE-BITS and R-QUOTE-SET; range loops over []byte(s), strings.ReplaceAll of one byte, and an input byte written as part of constant text are followed.")
